@@ -71,6 +71,14 @@ PROGRAMS = {
                           "    pub struct X;\n    #[::entrait::entrait(ref)]\n    impl {TR}Impl for X {{\n        pub fn k(deps: %s, target: i64) -> i64 {{ target * 2 }}\n    }}\n"
                           "    pub struct App(pub X);\n    impl ::core::borrow::Borrow<dyn {TR}Impl<Self>> for App {{ fn borrow(&self) -> &(dyn {TR}Impl<Self> + 'static) {{ &self.0 }} }}" % ANY,
                           ['let app = ::entrait::Impl::new(App(X));', 'rt::out("r", {TR}::k(&app, 2));'], "4"),
+    "dyn_target_tn": ("#[::entrait::entrait({TR}, delegate_by = ref)]\n    pub trait Usr {{ fn k(&self, target: i64) -> i64; }}\n"
+                      "    pub struct X;\n    #[::entrait::entrait(ref)]\n    impl {TR} for X {{\n        pub fn k(deps: %s, target: i64) -> i64 {{ target * 2 }}\n    }}\n"
+                      "    pub struct App(pub X);\n    impl ::core::convert::AsRef<dyn {TR}<Self>> for App {{ fn as_ref(&self) -> &(dyn {TR}<Self> + 'static) {{ &self.0 }} }}" % ANY,
+                      ['let app = ::entrait::Impl::new(App(X));', 'rt::out("r", Usr::k(&app, 2));'], "4"),
+    "static_target_tn": ("#[::entrait::entrait({TR}, delegate_by = DelegateUsr)]\n    pub trait Usr {{ fn k(&self, target: i64) -> i64; }}\n"
+                         "    pub struct X;\n    #[::entrait::entrait]\n    impl {TR} for X {{\n        pub fn k(deps: %s, target: i64) -> i64 {{ target * 2 }}\n    }}\n"
+                         "    pub struct App;\n    impl DelegateUsr<Self> for App {{ type Target = X; }}" % ANY,
+                         ['let app = ::entrait::Impl::new(App);', 'rt::out("r", Usr::k(&app, 2));'], "4"),
     "dyn_target_async": ("#[::entrait::entrait({TR}Impl, delegate_by = ref)]\n    #[::async_trait::async_trait]\n    pub trait {TR} {{ async fn k(&self, target: i64) -> i64; }}\n"
                          "    pub struct X;\n    #[::entrait::entrait(ref)]\n    #[::async_trait::async_trait]\n    impl {TR}Impl for X {{\n        pub async fn k(deps: %s, target: i64) -> i64 {{ target * 2 }}\n    }}\n"
                          "    pub struct App(pub X);\n    impl ::core::convert::AsRef<dyn {TR}Impl<Self> + ::core::marker::Sync> for App {{ fn as_ref(&self) -> &(dyn {TR}Impl<Self> + ::core::marker::Sync + 'static) {{ &self.0 }} }}" % ANY,
@@ -87,6 +95,12 @@ DECOYS = {
     "s_Impl": "pub struct Impl<T>(pub T);", "s_Box": "pub struct Box<T>(pub T);", "s_Pin": "pub struct Pin<T>(pub T);",
     "m_core": "pub mod core {}", "m_entrait": "pub mod entrait {}", "m_std": "pub mod std {}", "m_alloc": "pub mod alloc {}",
     "m_future": "pub mod future {}", "m_marker": "pub mod marker {}", "m_convert": "pub mod convert {}", "m_borrow": "pub mod borrow {}",
+    # real imports of std traits whose method names the generated code uses (`borrow`, `as_ref`, `deref`, `into_future`, ..):
+    # method-call syntax in generated code would be captured by them
+    "i_borrow": "#[allow(unused_imports)] use ::core::borrow::{Borrow, BorrowMut};",
+    "i_ops": "#[allow(unused_imports)] use ::core::ops::{Deref, DerefMut};",
+    "i_future": "#[allow(unused_imports)] use ::core::future::{Future, IntoFuture};",
+    "i_misc": "#[allow(unused_imports)] use ::core::any::Any; #[allow(unused_imports)] use ::std::borrow::ToOwned; #[allow(unused_imports)] use ::core::convert::{AsMut, Into};",
     # unit structs / consts in the value namespace turn a macro-introduced `let <name> = ..` into a pattern match
     # (names chosen not to coincide with the programs' own parameter names)
     "v_locals": "pub struct provider; pub struct receiver; pub struct the_future; pub struct output; pub struct ret; pub struct out; pub struct res; pub struct imp; pub struct delegation_target; pub struct arg0; pub struct arg1;",
@@ -128,7 +142,9 @@ def enumerate_states(tier):
             if n != "Box":
                 states.append(dict(key="h_%s_named_%s" % (prog, n), prog=prog, scope="none", name=n))
     states.append(dict(key="h_no_std_crate", prog="*", scope="no_std", name="Tr"))
-    return states, len(states) - len(PROGRAMS), dict(programs=list(PROGRAMS), decoys=list(DECOYS), trait_names=NAMES)
+    for cfg_test in (False, True):
+        states.append(dict(key="h_only_entrait_dep_%s" % ("test" if cfg_test else "notest"), prog="*", scope="only_dep", name="Tr", cfg_test=cfg_test))
+    return states, len(states) - len(PROGRAMS) - 2, dict(programs=list(PROGRAMS), decoys=list(DECOYS), trait_names=NAMES)
 
 
 STAMP_IDENTS = ["h0", "f1", "f2", "f3", "f4", "f5", "g1", "g2", "h1", "h2", "h", "k", "k2", "m", "deps", "c", "target", "this", "result", "inner", "fut", "tmp", "delegate"]
@@ -192,10 +208,10 @@ def render(s):
         items = stamp(items, s["scope"])
     L = ["mod %s {" % key, "    use super::rt;"]
     if s["scope"] == "all":
-        L += ["    " + d for d in DECOYS.values()]
+        L += ["    " + d for k, d in DECOYS.items() if not k.startswith("i_")]   # (the imports would clash with the local items of the same name)
     elif s["scope"].startswith("all_but_"):
         skip = s["scope"][len("all_but_"):]
-        L += ["    " + d for k, d in DECOYS.items() if not k.endswith("_" + skip) and k != "v_consts"]
+        L += ["    " + d for k, d in DECOYS.items() if not k.endswith("_" + skip) and k != "v_consts" and not k.startswith("i_")]
     elif s["scope"] in STAMPS:
         pass
     elif s["scope"] != "none":
@@ -216,6 +232,20 @@ def no_std_source():
         L.append("    " + items.replace("{{", "\x00").replace("}}", "\x01").replace("{TR}", "Tr").replace("\x00", "{").replace("\x01", "}"))
         L.append("}")
     return "\n".join(L) + "\n"
+
+
+ONLY_DEP_SRC = """#![allow(warnings)]
+pub mod p_fn { #[::entrait::entrait(pub Tr, mock_api = TrMock)] pub fn f(deps: &impl ::core::any::Any, a: i64) -> i64 { a } }
+pub mod p_mod { #[::entrait::entrait(pub Tr, mock_api = TrMock)] pub mod m { pub fn f(deps: &impl ::core::any::Any, a: i64) -> i64 { a } pub async fn g(deps: &impl ::core::any::Any) {} } }
+pub mod p_nodeps { #[::entrait::entrait(pub Tr, mock_api = TrMock, no_deps)] pub fn f(a: i64) -> i64 { a } }
+pub mod p_trait { #[::entrait::entrait] pub trait Tr { fn m(&self, a: i64) -> i64; } }
+pub mod p_trait_api { #[::entrait::entrait(mock_api = TrMock)] pub trait Tr { fn m(&self, a: i64) -> i64; async fn n(&self); } }
+pub mod p_trait_ref { #[::entrait::entrait(delegate_by = ref)] pub trait Tr { fn m(&self, a: i64) -> i64; } }
+pub mod p_target { #[::entrait::entrait(TrImpl, delegate_by = DelegateTr)] pub trait Tr { fn m(&self, a: i64) -> i64; } }
+pub mod p_export { #[::entrait::entrait_export(pub Tr, mock_api = TrMock)] pub fn f(deps: &impl ::core::any::Any, a: i64) -> i64 { a } }
+pub mod p_export_trait { #[::entrait::entrait_export] pub trait Tr { fn m(&self, a: i64) -> i64; } }
+pub mod p_concrete { pub struct Cfg; #[::entrait::entrait(pub Tr)] pub fn f(deps: &Cfg, a: i64) -> i64 { a } }
+"""
 
 
 def scan_paths(rec, view_paths):
@@ -247,7 +277,7 @@ def generated_part(rec):
 
 
 def evaluate(states, report, tier):
-    normal = [s for s in states if s["scope"] != "no_std"]
+    normal = [s for s in states if s["scope"] not in ("no_std", "only_dep")]
     units = [render(s) for s in normal]
     results, stats = engine.execute(units, feature=False, mode="run")
     report.phases.append(dict(stats))
@@ -320,6 +350,42 @@ def evaluate(states, report, tier):
                 except ValueError:
                     pass
             report.violation(s["key"], {"scope:no_std"}, "no_std-crate-does-not-compile", "\n".join(msgs), state=s, source=src, meta=dict(mode="check", crate_type="lib"))
+
+
+    # ---- a crate that depends on entrait ALONE (unimock crate feature on): the mock derivations may not name `::unimock` either
+    for s in [x for x in states if x["scope"] == "only_dep"]:
+        art = engine.build_subject(True)
+        with engine.Workdir() as wd:
+            p = os.path.join(wd, "onlydep.rs")
+            open(p, "w").write(ONLY_DEP_SRC)
+            cmd = engine.rustc_cmd(art, p, os.path.join(wd, "libonlydep.rmeta"), "metadata", s["cfg_test"], crate_type="lib")
+            keep, skip = [], False
+            for a in cmd:
+                if skip:
+                    skip = False
+                    if a.split("=")[0] != "entrait":
+                        continue
+                    keep.append("--extern")
+                    keep.append(a)
+                    continue
+                if a == "--extern":
+                    skip = True
+                    continue
+                keep.append(a)
+            pr = subprocess.run(keep, cwd=wd, stdout=subprocess.PIPE, stderr=subprocess.PIPE, text=True)
+        ok = pr.returncode == 0
+        import json as _j
+        msgs = []
+        for l in pr.stderr.splitlines():
+            if '"level":"error"' in l:
+                try:
+                    msgs.append(_j.loads(l)["message"])
+                except ValueError:
+                    pass
+        report.observe(s["key"], dict(compiles=True), dict(compiles=ok), nontrivial=True, sample=dict(source=ONLY_DEP_SRC[:1500]), evals=1)
+        if not ok:
+            report.violation(s["key"], {"scope:only_dep", "cfg_test:%s" % s["cfg_test"]}, "crate-with-entrait-as-only-dependency-does-not-compile",
+                             "\n".join(msgs[:6]) or pr.stderr[-400:], state=s, source=ONLY_DEP_SRC, meta=dict(mode="check", crate_type="lib", feature=True, cfg_test=s["cfg_test"]))
 
 
 def run(report, tier):
